@@ -121,4 +121,5 @@ def _borrowed_c12(an: Analysis) -> None:
     from ..engine import borrow
     from . import c12
 
-    borrow(an, c12.check, {"C12.7": "C13.5"}, keep=lambda f: "_AsyncCache" in f.at)
+    # C12.5: an entry stored already expired is deleted by the next caller, who starts a second invocation while the first is in flight
+    borrow(an, c12.check, {"C12.7": "C13.5", "C12.5": "C13.6"}, keep=lambda f: "_AsyncCache" in f.at)
